@@ -101,8 +101,8 @@ func (c ListCase) Post124() bool {
 	return post
 }
 
-var dirPool = []string{"", "", "", "a/", "a/b/", "a/b/c/", "vendor/", "vendor/x/", "vendor/x/y/", "pkg/vendor/", "pkg/vendor/z/", "pkg/vendor/z/w/", "vendor/vendor/", "sub/", "sub/deep/", "sub/vendor/", "A/", "a/B/", "Sub/", "é/", "ﬀ/", "ff/", "K/", "k/", "\u212a/", "\u212a/sub/", "\u017f/", "s/", "\u212b/", "\u00e5/", "a/\u212a/", "a/k/", "internal/", ".git/", "cmd/tool/", "testdata/", "con/", "a.b/", "..data/", "..2024_01_01/", "com1.conf.d/", "sub/..inner/"}
-var filePool = []string{"x.go", "y.go", "go.mod", "go.mod", "GO.MOD", "Go.Mod", "go.MOD", "LICENSE", "license", "License", "README.md", "modules.txt", "vendor.go", "vendor", ".hg_archival.txt", "aux.txt", "NUL", "com1.go", "a~1", "é.go", "É.go", "X.GO", "x.GO", "ß", "ss", "\u212a", "k", "K", "\u017f", "s", "\u212b", "\u00e5", "\u1e9e", "straße.go", "STRASSE.go", "σ.txt", "ς.txt", "Σ.txt", "a b.txt", "a\tb", "trailing.", ".hidden", "..", "...", "f|g", "f?g", "f*g", "weird[1].go", "go.mod.bak", "x", "z", ".git", ".hg", ".svn", ".bzr", ".gitignore", "cargo.mod", "algo.mod", "x.GO.MOD", "notgo.mod", "go.mod.go.mod", "LICENSE.txt", "MYLICENSE",
+var dirPool = []string{"", "", "", "zoo/", "a/", "a/b/", "a/b/c/", "vendor/", "vendor/x/", "vendor/x/y/", "pkg/vendor/", "pkg/vendor/z/", "pkg/vendor/z/w/", "vendor/vendor/", "sub/", "sub/deep/", "sub/vendor/", "A/", "a/B/", "Sub/", "é/", "ﬀ/", "ff/", "K/", "k/", "\u212a/", "\u212a/sub/", "\u017f/", "s/", "\u212b/", "\u00e5/", "a/\u212a/", "a/k/", "internal/", ".git/", "cmd/tool/", "testdata/", "con/", "a.b/", "..data/", "..2024_01_01/", "com1.conf.d/", "sub/..inner/"}
+var filePool = []string{"zed.go", "fizz.txt", "x.go", "y.go", "go.mod", "go.mod", "GO.MOD", "Go.Mod", "go.MOD", "LICENSE", "license", "License", "README.md", "modules.txt", "vendor.go", "vendor", ".hg_archival.txt", "aux.txt", "NUL", "com1.go", "a~1", "é.go", "É.go", "X.GO", "x.GO", "ß", "ss", "\u212a", "k", "K", "\u017f", "s", "\u212b", "\u00e5", "\u1e9e", "straße.go", "STRASSE.go", "σ.txt", "ς.txt", "Σ.txt", "a b.txt", "a\tb", "trailing.", ".hidden", "..", "...", "f|g", "f?g", "f*g", "weird[1].go", "go.mod.bak", "x", "z", ".git", ".hg", ".svn", ".bzr", ".gitignore", "cargo.mod", "algo.mod", "x.GO.MOD", "notgo.mod", "go.mod.go.mod", "LICENSE.txt", "MYLICENSE",
 	// names that begin with dots without being dot or dot-dot; reserved device names with several suffixes
 	"..keep", "..data", "...x", ".a.b", "aux.tar.gz", "NUL.pb.go", "lpt9.a.b.c", "com9", "LPT9.txt"}
 
@@ -169,12 +169,35 @@ func GenList(t *rapid.T, hostile bool) ListCase {
 			// duplicate or case variant of an earlier entry
 			pe := c.Entries[gen.Uniform(t, len(c.Entries), "dupof")]
 			prev := pe.Name
-			switch rapid.IntRange(0, 2).Draw(t, "dupkind") {
+			switch rapid.IntRange(0, 3).Draw(t, "dupkind") {
 			case 0:
 				c.Entries = append(c.Entries, pe) // exact duplicate, same content
 				continue
 			case 1:
 				e.Name = strings.ToUpper(prev)
+			case 3:
+				// the case of exactly one ASCII letter differs; the letters at the ends of the alphabet are preferred
+				// when the name has them (range tests written with < where <= is meant lose exactly those)
+				var all, edge []int
+				for i := 0; i < len(prev); i++ {
+					if ch := prev[i] | 0x20; 'a' <= ch && ch <= 'z' {
+						all = append(all, i)
+						if ch == 'a' || ch == 'z' {
+							edge = append(edge, i)
+						}
+					}
+				}
+				if len(all) == 0 {
+					e.Name = strings.ToUpper(prev)
+					break
+				}
+				at := all[gen.Uniform(t, len(all), "flipat")]
+				if len(edge) > 0 && gen.Chance(t, 60, "flipedge") {
+					at = edge[gen.Uniform(t, len(edge), "flipedgeat")]
+				}
+				b := []byte(prev)
+				b[at] ^= 0x20
+				e.Name = string(b)
 			default:
 				e.Name = prev + "/child.go" // an earlier file used as a directory
 			}
